@@ -166,31 +166,41 @@ Definition union_coords (d : Z) (fs : list cfib) : list coord :=
 
 Definition leaf_val (d : Z) (t : ct) : Z := match t with CL v => v | CN _ => d end.
 
-(* _mergeToFibertree (4371-4395).  raise = true is flattenRanks' merge_fn (raise ValueError),
-   raise = false is the default merge_fn (sum).  An operand that does not offer the
-   coordinate contributes its default payload (_createDefault: Fiber() above the leaf level,
-   the leaf default at it).  Fuel: the depth of the payloads; None on exhaustion. *)
-Fixpoint merge_tf (fuel : nat) (d : Z) (raise : bool) (ps : list ct) : option ct :=
+(* the merge function on leaf values: 0 = sum (the default, lambda ps: sum(ps)), 1 = max, 2 = min.
+   It is only ever called on a non-empty list (two or more colliding leaves). *)
+Definition mf_sum := 0.  Definition mf_max := 1.  Definition mf_min := 2.
+Definition redv (mfn : Z) (vs : list Z) : Z :=
+  if mfn =? mf_max then match vs with [] => 0 | v :: vs' => fold_left Z.max vs' v end
+  else if mfn =? mf_min then match vs with [] => 0 | v :: vs' => fold_left Z.min vs' v end
+  else sumZ vs.
+
+(* the payloads of the operands that have coordinate c (union()'s mask names them) *)
+Definition present_at (d : Z) (c : coord) (fs : list cfib) : list ct :=
+  flat_map (fun f => match clookup c (cpresent d f) with Some p => [p] | None => [] end) fs.
+
+(* _mergeToFibertree (fix S51: only the payloads of the fibers that have the coordinate are
+   merged).  raise = true is flattenRanks' merge_fn (raise ValueError), raise = false applies
+   the merge function [mfn] to the colliding leaves.  A single operand is returned as it is.
+   Fuel: the depth of the payloads; None on exhaustion. *)
+Fixpoint merge_tf_f (mfn : Z) (fuel : nat) (d : Z) (raise : bool) (ps : list ct) : option ct :=
   match ps with
   | [] => None                                            (* assert len(to_merge) > 0 *)
   | [p] => Some p
   | p0 :: _ =>
     match p0 with
-    | CL _ => if raise then None else Some (CL (sumZ (map (leaf_val d) ps)))
+    | CL _ => if raise then None else Some (CL (redv mfn (map (leaf_val d) ps)))
     | CN _ =>
       match fuel with
       | O => None
       | S fuel' =>
         let fs := map sub ps in
-        let lower_fibers := existsb (fun f => existsb (fun cp => negb (is_leaf (snd cp))) f) fs in
-        let dflt := if lower_fibers then CN [] else CL d in
-        let pick c f := match clookup c (cpresent d f) with Some p => p | None => dflt end in
         option_map CN
-          (all_some (map (fun c => option_map (pair c) (merge_tf fuel' d raise (map (pick c) fs)))
+          (all_some (map (fun c => option_map (pair c) (merge_tf_f mfn fuel' d raise (present_at d c fs)))
                          (union_coords d fs)))
       end
     end
   end.
+Notation merge_tf := (merge_tf_f 0).
 
 Fixpoint prodZ (l : list Z) : Z := match l with [] => 1 | x :: l' => x * prodZ l' end.
 
@@ -207,7 +217,7 @@ Definition group_items (items : list (coord * ct)) : list (coord * list ct) :=
    [levels] shapes below this rank, because the recursive call returns Fiber(shape=up*low)).
    fuel bounds the depth of the payload trees handed to _mergeToFibertree.
    None = an exception (PayloadError 4307-4308, the assert 4287, merge_fn raising). *)
-Fixpoint merge_helper (levels : nat) (style : Z) (raise : bool) (fuel : nat) (shapes : list Z)
+Fixpoint merge_helper_f (mfn : Z) (levels : nat) (style : Z) (raise : bool) (fuel : nat) (shapes : list Z)
          (d : Z) (es : cfib) : option cfib :=
   match levels with
   | O => None
@@ -221,7 +231,7 @@ Fixpoint merge_helper (levels : nat) (style : Z) (raise : bool) (fuel : nat) (sh
         | _ => all_some (map (fun cp =>                            (* 4290-4294: every payload *)
                  match snd cp with
                  | CN s => option_map (fun r => (fst cp, CN r))
-                             (merge_helper l' style raise fuel (tl shapes) d s)
+                             (merge_helper_f mfn l' style raise fuel (tl shapes) d s)
                  | CL _ => None
                  end) es)
         end
@@ -233,9 +243,10 @@ Fixpoint merge_helper (levels : nat) (style : Z) (raise : bool) (fuel : nat) (sh
       else
         let low_shape := prodZ (firstn levels (tl shapes)) in
         let groups := group_items (merge_items style low_shape d cur) in
-        all_some (map (fun g => option_map (pair (fst g)) (merge_tf fuel d raise (snd g))) groups)
+        all_some (map (fun g => option_map (pair (fst g)) (merge_tf_f mfn fuel d raise (snd g))) groups)
     end
   end.
+Notation merge_helper := (merge_helper_f 0).
 
 (* updatePayloads (2547-2598) with the lambda of updatePayloadsBelow: above the target depth
    every payload is descended into; at it the non-empty payloads are replaced and (fix S26,
@@ -257,12 +268,13 @@ Fixpoint upd_below (depth : nat) (f : cfib -> option cfib) (d : Z) (es : cfib) :
     end) es).
 
 (* Fiber.mergeRanks (4212-4255) on a deep copy *)
-Definition merge_ranks (depth levels : nat) (style : Z) (raise : bool) (fuel : nat)
+Definition merge_ranks_f (mfn : Z) (depth levels : nat) (style : Z) (raise : bool) (fuel : nat)
            (shapes : list Z) (d : Z) (es : cfib) : option cfib :=
   match depth with
-  | O => merge_helper levels style raise fuel shapes d es
-  | S k => upd_below k (merge_helper levels style raise fuel (skipn depth shapes) d) d es
+  | O => merge_helper_f mfn levels style raise fuel shapes d es
+  | S k => upd_below k (merge_helper_f mfn levels style raise fuel (skipn depth shapes) d) d es
   end.
+Notation merge_ranks := (merge_ranks_f 0).
 
 (* ------------------------------------------------------------------ unflatten *)
 (* the loop 4450-4522 of unflattenRanks: a new upper element starts when c1 > c1_last;
@@ -329,9 +341,10 @@ Definition t_swap (depth fuel : nat) (d : Z) (es : cfib) : option cfib :=
   else modify_root depth (swap_fiber fuel d) d es.
 
 (* Tensor.flattenRanks / mergeRanks (1577-1657) *)
-Definition t_merge (depth levels : nat) (style : Z) (raise : bool) (fuel : nat)
+Definition t_merge_f (mfn : Z) (depth levels : nat) (style : Z) (raise : bool) (fuel : nat)
            (shapes : list Z) (d : Z) (es : cfib) : option cfib :=
-  merge_ranks depth levels style raise fuel shapes d es.
+  merge_ranks_f mfn depth levels style raise fuel shapes d es.
+Notation t_merge := (t_merge_f 0).
 
 (* Tensor.unflattenRanks (1738-1806) *)
 Definition t_unflatten (depth levels : nat) (d : Z) (es : cfib) : option cfib :=
